@@ -4,8 +4,15 @@ from .common import PKT_SOURCES, PKT_STUBS
 from .fsm_common import fsm_job
 from .sync_common import *
 
-INFO = {"outside": "wip", "assumptions": []}
-MANIFEST = {"text": "wip", "note": "wip"}
+INFO = {
+    "outside": 'none on values; skeletons as C03',
+    "assumptions": ['as C03/C05'],
+}
+MANIFEST = {
+    "text": 'Pure bit-vector reasoning over full 32-bit values: rtr_init accepts exactly in-range intervals; after End of Data in the real rtr_sync (skeletons) the three intervals equal spec(mode, sent value, old value) for all four modes, version 0 never changes them; rtr_wait_for_sync with a symbolic clock waits exactly max(0, last_update + refresh - now) and polls exactly on Serial Notify or timeout; in the k-step FSM a Serial Query follows immediately.',
+    "note": 'No bound on the interval values. Skeleton families for the EOD branch as C03.',
+    "technique": 'CBMC on real interval code with full 32-bit symbolic values',
+}
 
 
 def jobs(tier):
